@@ -206,7 +206,7 @@ DEFAULT_WEIGHTS = {
     "create": 3, "delete": 1, "addp": 2, "rmp": 1, "mvp": 1,
     "rule": 1, "rmrule": 1, "reopen": 1, "clear": 0.6,
     "bad_delete": 0.5, "bad_rmp": 0.4, "bad_mvp": 0.3, "overwrite_open": 0.3,
-    "bystander": 0.3, "addp_foreign": 0.3,
+    "bystander": 0.3, "addp_foreign": 0.3, "touch": 1.5,
 }
 
 
@@ -303,8 +303,19 @@ def gen_history(rng, cfg, pool, text, nops, weights=None, allow_uncrawled_pages=
                 ts = [x for x in ts if rules_ok(x)]
                 seen_targets += ts
                 data.append([s, ts])
-            ops.append({"op": "batch", "data": data, "yf": rng.choice([1, 2, 50]), "as_str": astr([x for s_, ts in data for x in [s_] + ts])})
-            m.batch(data)
+            as_text = astr([x for s_, ts in data for x in [s_] + ts])
+            if not as_text and data and rng.random() < 0.25:
+                # the same page named twice in one batch: once as bytes, once as text (two different keys)
+                s_, ts = rng.choice(data)
+                try:
+                    enc = cfg.get("encoding", "utf-8")
+                    if s_.decode(enc).encode(enc) == s_:
+                        more = [pick() for _ in range(rng.randint(1, 3))]
+                        data.append([s_, more, True])
+                except Exception:
+                    pass
+            ops.append({"op": "batch", "data": data, "yf": rng.choice([1, 2, 50]), "as_str": as_text})
+            m.batch([[e[0], e[1]] for e in data])
         elif k == "create":
             ps = []
             for _ in range(rng.choice([1, 1, 2, 3])):
@@ -382,6 +393,11 @@ def gen_history(rng, cfg, pool, text, nops, weights=None, allow_uncrawled_pages=
                     continue
                 m.ins(p)
             ops.append({"op": k, "prefix": p, "of": other})
+        elif k == "touch" and m.nodes:
+            # read-only requests naming one stored LRU, between two writes (whatever a lookup leaves behind
+            # must not be reused after the next write)
+            cand = sorted(m.we) if (m.we and rng.random() < 0.6) else sorted(m.nodes)
+            ops.append({"op": "touch", "lru": rng.choice(cand), "how": rng.randrange(4)})
         elif k == "bystander":
             # another index comes to life in the same process and stays open (it must not interfere)
             ops.append({"op": "bystander", "pages": [pick() for _ in range(rng.randint(0, 3))], "memory": rng.random() < 0.6})
